@@ -28,6 +28,8 @@ META = {
             ">= 2 gates; distinct = distinct gate lists.",
     "bound": {"quick": "n=3 L<=4 (137k circuits), n=2 L<=5", "thorough": "n=3 L<=5 (2.6M), n=2 L<=7, n=3 with z/cz separators L<=4"},
     "assumptions": ["svsim (numpy unitary simulator, cross-checked against qiskit's Operator and against bitsim) is the meaning of a circuit"],
+    # a case is a BLOCK of circuits (all sequences below a two-letter prefix): the per-case CPU cap is sized for a block
+    "case_cap_s": 900,
     "explanation": "states = circuits; transitions = gate appends + one optimizer run and two unitaries per circuit.",
 }
 
